@@ -251,8 +251,9 @@ func c10msgType(kind string) comm.MessageType {
 }
 
 // C10.cell <kind> <outcome>   the relayer under test is a participant of a session coordinated by relayer 1
-//   outcomes: refused | silent | gto | cancel | rejected | failed | noshare (constructor refuses: signing without a share)
-//   => L=<locks>,U=<unlocks>,F=<unlocks of an unlocked mutex>,H=<held at exit>,R=<held while the protocol ran: 1|0|->,A=<share accesses under lock>/<without>
+//
+//	outcomes: refused | silent | gto | cancel | rejected | failed | noshare (constructor refuses: signing without a share)
+//	=> L=<locks>,U=<unlocks>,F=<unlocks of an unlocked mutex>,H=<held at exit>,R=<held while the protocol ran: 1|0|->,A=<share accesses under lock>/<without>
 func c10cell(a []string) string { return c10cached("cell", c10cellRun, a) }
 
 func c10cached(op string, f Op, a []string) string {
@@ -309,7 +310,8 @@ func c10cellRun(a []string) string {
 }
 
 // C10.seq <kind:outcome,…>   cells one after another on ONE relayer (one ECDSA store, one FROST store, one
-//   coordinator, the same session id re-used) => the per-cell outputs joined by '|', counters cumulative per store
+//
+//	coordinator, the same session id re-used) => the per-cell outputs joined by '|', counters cumulative per store
 func c10seq(a []string) string {
 	w := newC10World(2, true)
 	defer w.close()
@@ -462,8 +464,9 @@ func (w *c10world) startParams(kind, sid string) []byte {
 }
 
 // C10.full <kind>   ran-and-succeeded: every needed relayer runs the real protocol to the end, in-process.
-//   signing kinds: relayers 0 and 1 (threshold+1 of the fixture shares; the third relayer is down);
-//   keygen / resharing: all three relayers.   => per relayer `ok;L=…`, joined by '|'
+//
+//	signing kinds: relayers 0 and 1 (threshold+1 of the fixture shares; the third relayer is down);
+//	keygen / resharing: all three relayers.   => per relayer `ok;L=…`, joined by '|'
 func c10fullRun(a []string) string {
 	kind := a[0]
 	n := 3
@@ -531,8 +534,9 @@ func (s *slowSubComm) Subscribe(sid string, t comm.MessageType, ch chan *comm.Wr
 }
 
 // C10.stuck <kind>   (ECDSA resharing | signing) the session is failed by its coordinator while Run is between its
-//   Subscribe and Party.Start: the context is already cancelled when the party hands over its first message.
-//   => ret;L=… as for `cell`, or hang;L=… when Execute does not return within 4 s
+//
+//	Subscribe and Party.Start: the context is already cancelled when the party hands over its first message.
+//	=> ret;L=… as for `cell`, or hang;L=… when Execute does not return within 4 s
 func c10stuck(a []string) string {
 	kind := a[0]
 	w := newC10World(2, true)
@@ -593,8 +597,9 @@ func c10stuck(a []string) string {
 }
 
 // C09.rerun <kind> <n>   what the coordinator's retry does to a retryable (signing) process: Run it n times (each run
-//   ended by cancelling its context once the party has handed over its first-round messages), then Stop it once.
-//   => sub=<subscriptions obtained>,unsub=<released>,live=<still registered for the session id>
+//
+//	ended by cancelling its context once the party has handed over its first-round messages), then Stop it once.
+//	=> sub=<subscriptions obtained>,unsub=<released>,live=<still registered for the session id>
 func c9rerun(a []string) string { return c10cached("rerun", c9rerunRun, a) }
 
 func c9rerunRun(a []string) string {
